@@ -351,12 +351,20 @@ impl Retrier {
         //            waste a retry cycle with a request that will always fail.
         {
             let mut state = self.wt_client.lock().unwrap();
-            if !state
-                .get_tower_status(&self.tower_id)
-                .unwrap()
-                .is_subscription_error()
-            {
-                state.set_tower_status(self.tower_id, TowerStatus::TemporaryUnreachable);
+            match state.get_tower_status(&self.tower_id) {
+                Some(status) => {
+                    if !status.is_subscription_error() {
+                        state
+                            .set_tower_status(self.tower_id, TowerStatus::TemporaryUnreachable);
+                    }
+                }
+                // The tower may have been abandoned since the retrier was flagged to be started
+                None => {
+                    log::info!("Skipping retrying abandoned tower {}", self.tower_id);
+                    drop(state);
+                    self.set_status(RetrierStatus::Failed);
+                    return;
+                }
             }
         }
         self.set_status(RetrierStatus::Running);
